@@ -36,6 +36,7 @@ type okEv struct {
 	isCall   func(*ssa.Call) bool
 	carriers map[ssa.Value]bool // values that may hold the call's error result
 	cells    map[*ssa.Alloc]bool
+	fcells   map[*types.Var]bool // struct fields the result is parked in (b.err = f(); if b.err != nil)
 	want     bool // for bool results: the value that counts as success
 	boolMode bool
 	sticky   bool // a later matching call does not reset an established event
@@ -59,6 +60,7 @@ func newBoolEv(fn *ssa.Function, name string, want bool, isCall func(*ssa.Call) 
 func (e *okEv) init(fn *ssa.Function) {
 	e.carriers = map[ssa.Value]bool{}
 	e.cells = map[*ssa.Alloc]bool{}
+	e.fcells = map[*types.Var]bool{}
 	for _, b := range fn.Blocks {
 		for _, ins := range b.Instrs {
 			c, ok := ins.(*ssa.Call)
@@ -98,9 +100,17 @@ func (e *okEv) init(fn *ssa.Function) {
 						e.cells[a] = true
 						changed = true
 					}
+					if f := fieldOfAddr(x.Addr); f != nil && e.carriers[x.Val] && !e.fcells[f] {
+						e.fcells[f] = true
+						changed = true
+					}
 				case *ssa.UnOp:
 					if x.Op == token.MUL {
 						if a, ok := x.X.(*ssa.Alloc); ok && e.cells[a] && !e.carriers[x] {
+							e.carriers[x] = true
+							changed = true
+						}
+						if f := fieldOfAddr(x.X); f != nil && e.fcells[f] && !e.carriers[x] {
 							e.carriers[x] = true
 							changed = true
 						}
@@ -137,6 +147,9 @@ func (e *okEv) Instr(st uint8, ins ssa.Instruction) uint8 {
 		}
 	case *ssa.Store:
 		if a, ok := x.Addr.(*ssa.Alloc); ok && e.cells[a] && !e.carriers[x.Val] {
+			return st &^ bPEND
+		}
+		if f := fieldOfAddr(x.Addr); f != nil && e.fcells[f] && !e.carriers[x.Val] {
 			return st &^ bPEND
 		}
 	}
